@@ -155,15 +155,33 @@ def call_cube(cube, case, rnd, args_out=None):
     wa = case.weights_arg(rnd)
     if args_out is not None:
         args_out.extend([fa, wa, digest([fa, wa])])
+    # how a caller writes the call is part of the input: everything by keyword, everything positionally in the
+    # documented order, or only what differs from the documented defaults
+    style = rnd.choice(["kw", "kw", "positional", "defaults"])
+    ig, rma = kw["ignore_missing"], kw["return_missing_as"]
+    if style == "defaults":
+        if ig is False:
+            kw.pop("ignore_missing")
+        if isinstance(rma, float) and rma != rma:
+            kw.pop("return_missing_as")
+    wkw = {} if (style == "defaults" and wa is None) else {"weights": wa}
     if f == "count":
+        if style == "positional":
+            return cube.count(wa, case.N, ig, rma)
         if case.N is not None:
             kw["N"] = case.N
-        return cube.count(weights=wa, **kw)
+        return cube.count(**wkw, **kw)
     if f in ("valid_count", "sum", "mean", "stddev", "covariance", "corrcoef"):
-        return getattr(cube, f)(fa, weights=wa, **kw)
+        if style == "positional":
+            return getattr(cube, f)(fa, wa, ig, rma)
+        return getattr(cube, f)(fa, **wkw, **kw)
     if f in ("quantile", "wquantile"):
-        return cube.quantile(fa, float(case.p), weights=wa, **kw)
+        if style == "positional":
+            return cube.quantile(fa, float(case.p), wa, ig, rma)
+        return cube.quantile(fa, float(case.p), **wkw, **kw)
     if f in ("min", "max"):
+        if style == "positional":
+            return getattr(cube, f)(fa, ig, rma)
         return getattr(cube, f)(fa, **kw)
     raise ValueError(f)
 
